@@ -55,6 +55,8 @@ ASSUMPTIONS = [
     'no-leak clause is asserted there',
     'HttpRpc text/plain faults have no detail slot; detail is compared only '
     'where the wire format has one',
+    'XML 1.0 cannot represent C0 control characters: for the XML protocols '
+    'the message is expected with U+FFFD in their place',
 ]
 
 OUTS = ['xml', 'soap11', 'soap12', 'json', 'yaml', 'msgpack', 'msgpackrpc',
@@ -297,6 +299,12 @@ def judge(case, uni, info, body, raised):
                                                      % exc['kind'])
         return _result(case, V, info, None)
     want = ExcSpec.expected(exc)
+    if out_prot in XML_FAMILY and want[1]:
+        # XML 1.0 cannot carry these at all: U+FFFD in their place is as
+        # intact as the message can arrive
+        import re
+        want = (want[0], re.sub(u'[\x00-\x08\x0b\x0c\x0e-\x1f]', u'\ufffd',
+                                want[1]), want[2])
     code, string, detail = got
     if code != want[0]:
         viol('code', 'fault code %r arrived as %r' % (want[0], code))
@@ -350,17 +358,25 @@ def judge(case, uni, info, body, raised):
     return _result(case, V, info, got)
 
 
-def _norm_detail(d):
-    if d is None or d == '' or d == {}:
+def _norm_detail(d, top=True):
+    # only an absent / empty detail as a whole is "no detail"; inside it,
+    # falsy leaves (0, False, '') are data
+    if top and (d is None or d == '' or d == {}):
         return None
     if isinstance(d, dict):
-        return dict((str(k), _norm_detail(v)) for k, v in d.items())
+        return dict((str(k), _norm_detail(v, False)) for k, v in d.items())
+    if d is None:
+        return ''
+    if isinstance(d, bool):
+        return str(d)
+    if isinstance(d, (int, float)):
+        return str(d)
     if isinstance(d, bytes):
         return d.decode('utf8', 'replace')
     if isinstance(d, (list, tuple)):
         if len(d) == 1:
-            return _norm_detail(d[0])
-        return [_norm_detail(x) for x in d]
+            return _norm_detail(d[0], False)
+        return [_norm_detail(x, False) for x in d]
     return d
 
 
